@@ -573,8 +573,12 @@ def loop_candidates(case):
     n = len(case["calls"])
     sc = case["script"]
     # drop one scripted action that is not the fault and not the last full recv
+    # (without a fault every request must keep its one reply, otherwise the case itself is a stall)
+    droppable = ("dup", "bogus") if case.get("fault", "none") == "none" else ("reply", "dup", "bogus")
     for i, a in enumerate(sc):
-        if a["a"] in ("reply", "dup", "bogus"):
+        if a["a"] in droppable:
+            if a["a"] == "reply" and any(b["a"] == "dup" for b in sc):
+                continue        # dup refers to the index of an earlier send
             out.append(dict(case, script=sc[:i] + sc[i + 1:]))
     # drop the second wave / one of its calls
     if case.get("wave2"):
@@ -619,7 +623,7 @@ def codec_candidates(case):
     return [clean(c) for c in out]
 
 
-def shrink(ctx, binpath, case, kind, rounds=5):
+def shrink(ctx, binpath, case, kind, rounds=5, what=None):
     cur = clean(case)
     for r in range(rounds):
         cands = loop_candidates(cur) if cur["k"] == "loop" else codec_candidates(cur) if cur["k"] in ("write", "read") else []
@@ -627,7 +631,8 @@ def shrink(ctx, binpath, case, kind, rounds=5):
             break
         cands = cands[:40]
         findings, _, _ = evaluate(ctx, binpath, cands, tag="shr%d" % r)
-        hit = sorted(set(f["case"] for f in findings if f["kind"] == kind))
+        hit = sorted(set(f["case"] for f in findings if f["kind"] == kind and (what is None or f["what"] == what)
+                         and not f.get("known_key")))
         if not hit:
             break
         cur = clean(cands[hit[0]])
